@@ -1,9 +1,12 @@
 import ClipVerif.Props.C05
 /-
-C10 — open-path offsetting produces the stroke of half-width delta.  Nothing beyond C05's
-`StripDuplicates` theorems is proved for it: the stroke construction is float geometry
-(`offsetOpenPath`, `doSquare`, `doRound`), explored by the sampling search with the exact Lean
-judge.  The end-cap guard is a KNOWN FINDING (site:open-path-end-cap): caps are never built.
+C10 — open-path offsetting produces the stroke of half-width delta.  Proved: what is stroked
+(`StripDuplicates`, C05) and the decisions of `doGroupOffset` for open end types (model
+`Model.offsetPlan`, tied by `models-corr offplan`): the half-width is |delta| whatever its sign, every
+path is dispatched by its own length and the group's end type, and the final union is Positive.
+The stroke construction itself is float geometry (`offsetOpenPath`, `doSquare`, `doRound`),
+explored by the sampling search with the exact Lean judge.  The end-cap guard is a KNOWN FINDING
+(site:open-path-end-cap): caps are never built.
 -/
 namespace C10
 open Gen Model
@@ -13,5 +16,31 @@ theorem open_input_no_adjacent_dups (path : List Point64) :
     ∀ i, (h : i + 1 < (stripDuplicates path false).length) →
       (stripDuplicates path false)[i] ≠ (stripDuplicates path false)[i + 1] :=
   C05.strip_no_adjacent_dups path false
+
+/-- open end types: the stroke half-width is `|delta|` whatever the sign of delta, nothing is
+    reversed, and the final union uses the Positive fill rule -/
+theorem open_group_delta (sd : List Point64 → Bool → List Point64) (area : List Point64 → Int)
+    (paths : List (List Point64)) (delta : Float) (jt et : Nat) (rev pc : Bool)
+    (hne : paths ≠ []) (hd : ¬ delta.abs < 0.5) (het : et ≠ 0) :
+    ∃ evs, Model.offsetPlan sd area paths delta jt et rev pc =
+      [Model.OffEv.group delta.abs et jt (-1) false] ++ evs ++ [Model.OffEv.union 2 rev pc] :=
+  C05.offsetPlan_open sd area paths delta jt et rev pc hne hd het
+
+/-- every path is dispatched on its own length: one point → square / circle, two points of a Joined
+    group → square (round for round joins) ends, otherwise the group's end type; the choice made
+    for one path never leaks into another (it did before the repair recorded in KNOWN_FINDINGS) -/
+theorem path_dispatch_independent (sd : List Point64 → Bool → List Point64) (area : List Point64 → Int)
+    (paths : List (List Point64)) (delta : Float) (jt et : Nat) (rev pc : Bool) (cnt e : Nat) (pts : List Point64)
+    (h : Model.OffEv.path cnt e pts ∈ Model.offsetPlan sd area paths delta jt et rev pc) :
+    cnt = pts.length ∧ 1 ≤ cnt ∧
+    e = (if cnt = 2 ∧ et = 1 then (if jt = 3 then 4 else 3) else et) :=
+  C05.offsetPlan_path_dispatch sd area paths delta jt et rev pc cnt e pts h
+
+/-- sub-unit deltas return the input -/
+theorem small_delta_passes_through (sd : List Point64 → Bool → List Point64) (area : List Point64 → Int)
+    (paths : List (List Point64)) (delta : Float) (jt et : Nat) (rev pc : Bool)
+    (hne : paths ≠ []) (hd : delta.abs < 0.5) :
+    Model.offsetPlan sd area paths delta jt et rev pc = [Model.OffEv.passThrough] :=
+  C05.offsetPlan_small_delta sd area paths delta jt et rev pc hne hd
 
 end C10
